@@ -498,6 +498,10 @@ Proof. reflexivity. Qed.
 Theorem hour12_range : forall h, 1 <= hour12_of h <= 12.
 Proof. intros h. unfold hour12_of. destruct (h mod 12 =? 0) eqn:E; lia. Qed.
 
+(* no minimum width: no zero padding *)
+Lemma pad_left_zeros_0 s : pad_left_zeros s 0 = LOk s.
+Proof. unfold pad_left_zeros. destruct (0 <? 0 - Z.of_nat (rune_count s)) eqn:E; [lia|reflexivity]. Qed.
+
 (* [h] is wired to hour12_of: whatever format_integer is, $fromMillis(0, "[h]") prints the
    integer 12, as the property demands *)
 Theorem from_millis_h_midnight (fi : Z -> string -> lres string) :
@@ -530,7 +534,8 @@ Proof.
   unfold format_hour. cbn [mk_format]. change (is_decimal_format "1") with true. cbn [negb].
   change (t_hour (ms_to_time 0)) with 0. change (hour12_of 0) with 12.
   unfold format_integer_component. cbn [mk_format mk_modifier].
-  destruct (fi 12 "1"%string) as [s| | | |]; cbn [lbind andb negb]; try reflexivity.
+  destruct (fi 12 "1"%string) as [s| | | |]; cbn [lbind andb negb mk_minw zero_marker];
+    rewrite ?pad_left_zeros_0; cbn [lbind andb negb]; try reflexivity.
   all: repeat match goal with |- context [seqb ?t "errUnsupported"] =>
          destruct (seqb t "errUnsupported") end.
   all: cbn [andb lbind fs_in_marker fs_expanded negb fs_result fs_start]; reflexivity.
@@ -555,14 +560,20 @@ Definition pair_val (c1 c2 : ascii) : option Z :=
 Definition sign_val (c : ascii) : option Z :=
   if Ascii.eqb c "-" then Some (-1) else if Ascii.eqb c "+" then Some 1 else None.
 
-(* the set of strings parseTimeZone really accepts, with the offset it computes *)
+(* the set of strings parseTimeZone accepts (as repaired), with the offset it computes *)
 Definition tz_accepts (s : string) : option Z :=
   match s with
   | String sg (String c1 (String c2 (String c3 (String c4 EmptyString)))) =>
-      match sign_val sg, pair_val c1 c2, pair_val c3 c4 with
-      | Some k, Some h, Some m => Some (k * (60 * (60 * h + m)))
-      | _, _, _ => None
-      end
+      if is_digit_byte (byte_of c1) && is_digit_byte (byte_of c2)
+         && is_digit_byte (byte_of c3) && is_digit_byte (byte_of c4) then
+        match sign_val sg with
+        | Some k =>
+            let h := 10 * (byte_of c1 - 48) + (byte_of c2 - 48) in
+            let m := 10 * (byte_of c3 - 48) + (byte_of c4 - 48) in
+            if (h <=? 23) && (m <=? 59) then Some (k * (60 * (60 * h + m))) else None
+        | None => None
+        end
+      else None
   | _ => None
   end.
 
@@ -620,71 +631,87 @@ Proof.
     with (String c1 (String c2 "")).
   change (sslice 3 5 (String sg (String c1 (String c2 (String c3 (String c4 ""))))))
     with (String c3 (String c4 "")).
-  rewrite !go_atoi_two.
+  change (forallb is_digit_byte (bytes_of (sdrop 1 (String sg (String c1 (String c2 (String c3 (String c4 ""))))))))
+    with (is_digit_byte (byte_of c1) && (is_digit_byte (byte_of c2) &&
+          (is_digit_byte (byte_of c3) && (is_digit_byte (byte_of c4) && true)))).
+  rewrite !go_atoi_two. unfold pair_val.
   change (byte_at (String sg (String c1 (String c2 (String c3 (String c4 ""))))) 0) with (byte_of sg).
-  unfold sign_val.
-  pose proof (byte_of_range sg) as R.
-  destruct (Ascii.eqb sg "-") eqn:Em.
-  - rewrite (byte_of_minus _ Em). change (45 =? 45) with true. cbv iota.
-    destruct (pair_val c1 c2), (pair_val c3 c4); reflexivity.
-  - destruct (Ascii.eqb sg "+") eqn:Ep.
-    + rewrite (byte_of_plus _ Ep). change (43 =? 45) with false. change (43 =? 43) with true.
-      cbv iota. destruct (pair_val c1 c2), (pair_val c3 c4); reflexivity.
-    + assert (byte_of sg =? 45 = false) as ->.
-      { apply Z.eqb_neq. intros H. apply Ascii.eqb_neq in Em. apply Em.
-        destruct sg as [[] [] [] [] [] [] [] []]; vm_compute in H; try discriminate. reflexivity. }
-      assert (byte_of sg =? 43 = false) as ->.
-      { apply Z.eqb_neq. intros H. apply Ascii.eqb_neq in Ep. apply Ep.
-        destruct sg as [[] [] [] [] [] [] [] []]; vm_compute in H; try discriminate. reflexivity. }
-      reflexivity.
+  assert ((if byte_of sg =? 45 then Some (-1) else if byte_of sg =? 43 then Some 1 else None)
+          = sign_val sg) as ->.
+  { unfold sign_val. pose proof (byte_of_range sg) as R.
+    destruct (Ascii.eqb sg "-") eqn:Em; [now rewrite (byte_of_minus _ Em)|].
+    destruct (Ascii.eqb sg "+") eqn:Ep; [now rewrite (byte_of_plus _ Ep)|].
+    assert (byte_of sg =? 45 = false) as ->.
+    { apply Z.eqb_neq. intros H. apply Ascii.eqb_neq in Em. apply Em.
+      destruct sg as [[] [] [] [] [] [] [] []]; vm_compute in H; try discriminate. reflexivity. }
+    assert (byte_of sg =? 43 = false) as ->.
+    { apply Z.eqb_neq. intros H. apply Ascii.eqb_neq in Ep. apply Ep.
+      destruct sg as [[] [] [] [] [] [] [] []]; vm_compute in H; try discriminate. reflexivity. }
+    reflexivity. }
+  destruct (is_digit_byte (byte_of c1)) eqn:D1, (is_digit_byte (byte_of c2)) eqn:D2,
+           (is_digit_byte (byte_of c3)) eqn:D3, (is_digit_byte (byte_of c4)) eqn:D4;
+    cbn [andb negb]; destruct (sign_val sg) as [k|]; try reflexivity.
+  cbv zeta.
+  destruct (23 <? 10 * (byte_of c1 - 48) + (byte_of c2 - 48)) eqn:E1;
+  destruct (59 <? 10 * (byte_of c3 - 48) + (byte_of c4 - 48)) eqn:E2;
+  destruct (10 * (byte_of c1 - 48) + (byte_of c2 - 48) <=? 23) eqn:E3;
+  destruct (10 * (byte_of c3 - 48) + (byte_of c4 - 48) <=? 59) eqn:E4;
+  cbn [andb]; try reflexivity; lia.
 Qed.
 Print Assumptions parse_time_zone_char.
 
-(** Every +HHMM / -HHMM string is accepted with the offset it denotes ... *)
-Theorem parse_time_zone_spec : forall s off, tz_denotes s off -> parse_time_zone s = LOk (off, s).
+(** parseTimeZone accepts EXACTLY the strings +HHMM / -HHMM (HH <= 23, MM <= 59), with the
+    offset they denote; everything else is an error.  (Before the repair strconv.Atoi's own
+    sign made "+-1-2" acceptable and hours/minutes up to 99 were taken.) *)
+Theorem parse_time_zone_spec : forall s off, tz_denotes s off <-> parse_time_zone s = LOk (off, s).
 Proof.
-  intros s off (sg & h1 & h2 & m1 & m2 & -> & Hsg & D1 & D2 & D3 & D4 & ->).
-  rewrite parse_time_zone_char. unfold tz_accepts, pair_val, sign_val.
-  unfold is_digit in *. unfold digit_val. fold (byte_of h1) (byte_of h2) (byte_of m1) (byte_of m2) in *.
-  unfold is_digit_byte. rewrite D1, D2, D3, D4.
-  destruct Hsg as [-> | ->]; reflexivity.
+  intros s off. rewrite parse_time_zone_char. split.
+  - intros (sg & h1 & h2 & m1 & m2 & -> & Hsg & D1 & D2 & D3 & D4 & Hh & Hm & ->).
+    unfold tz_accepts, sign_val.
+    unfold is_digit in *. unfold digit_val in *.
+    fold (byte_of h1) (byte_of h2) (byte_of m1) (byte_of m2) in *.
+    unfold is_digit_byte. rewrite D1, D2, D3, D4. cbn [andb]. cbv zeta.
+    destruct Hsg as [-> | ->]; cbn [Ascii.eqb Bool.eqb andb];
+      (destruct ((10 * (byte_of h1 - 48) + (byte_of h2 - 48) <=? 23)
+                 && (10 * (byte_of m1 - 48) + (byte_of m2 - 48) <=? 59)) eqn:E; [reflexivity|lia]).
+  - unfold tz_accepts.
+    destruct s as [|sg [|c1 [|c2 [|c3 [|c4 [|c5 r]]]]]]; try discriminate.
+    destruct (is_digit_byte (byte_of c1)) eqn:D1; [|discriminate].
+    destruct (is_digit_byte (byte_of c2)) eqn:D2; [|discriminate].
+    destruct (is_digit_byte (byte_of c3)) eqn:D3; [|discriminate].
+    destruct (is_digit_byte (byte_of c4)) eqn:D4; [|discriminate].
+    cbn [andb]. unfold sign_val. cbv zeta.
+    destruct (Ascii.eqb sg "-") eqn:Em.
+    + apply Ascii.eqb_eq in Em. subst sg.
+      destruct ((10 * (byte_of c1 - 48) + (byte_of c2 - 48) <=? 23)
+                && (10 * (byte_of c3 - 48) + (byte_of c4 - 48) <=? 59)) eqn:E; [|discriminate].
+      intros H. inversion H. exists "-"%char, c1, c2, c3, c4.
+      unfold is_digit, digit_val. fold (byte_of c1) (byte_of c2) (byte_of c3) (byte_of c4).
+      unfold is_digit_byte in *. repeat split; auto; lia.
+    + destruct (Ascii.eqb sg "+") eqn:Ep; [|discriminate].
+      apply Ascii.eqb_eq in Ep. subst sg.
+      destruct ((10 * (byte_of c1 - 48) + (byte_of c2 - 48) <=? 23)
+                && (10 * (byte_of c3 - 48) + (byte_of c4 - 48) <=? 59)) eqn:E; [|discriminate].
+      intros H. inversion H. exists "+"%char, c1, c2, c3, c4.
+      unfold is_digit, digit_val. fold (byte_of c1) (byte_of c2) (byte_of c3) (byte_of c4).
+      unfold is_digit_byte in *. repeat split; auto; lia.
 Qed.
 Print Assumptions parse_time_zone_spec.
 Example parse_time_zone_ex : tz_denotes "-0730" (-27000) /\ parse_time_zone "-0730" = LOk (-27000, "-0730"%string).
-Proof.
-  split; [|reflexivity].
-  exists "-"%char, "0"%char, "7"%char, "3"%char, "0"%char. repeat split; auto.
-Qed.
+Proof. split; [apply parse_time_zone_spec|]; reflexivity. Qed.
 
-(** ... and a string whose four trailing characters are digits is accepted only if it is
-    +HHMM / -HHMM ... *)
-Theorem parse_time_zone_digits_only : forall sg h1 h2 m1 m2 off n,
-  is_digit h1 = true -> is_digit h2 = true -> is_digit m1 = true -> is_digit m2 = true ->
-  parse_time_zone (String sg (String h1 (String h2 (String m1 (String m2 EmptyString))))) = LOk (off, n) ->
-  tz_denotes (String sg (String h1 (String h2 (String m1 (String m2 EmptyString))))) off.
+(* every other string is an error *)
+Theorem parse_time_zone_rejects : forall s,
+  (forall off, ~ tz_denotes s off) -> parse_time_zone s = LErr "invalid timezone".
 Proof.
-  intros sg h1 h2 m1 m2 off n D1 D2 D3 D4 H.
-  rewrite parse_time_zone_char in H. unfold tz_accepts, pair_val, sign_val in H.
-  unfold is_digit in *. fold (byte_of h1) (byte_of h2) (byte_of m1) (byte_of m2) in *.
-  unfold is_digit_byte in H. rewrite D1, D2, D3, D4 in H.
-  exists sg, h1, h2, m1, m2. unfold is_digit, digit_val.
-  fold (byte_of h1) (byte_of h2) (byte_of m1) (byte_of m2).
-  destruct (Ascii.eqb sg "-") eqn:Em.
-  - apply Ascii.eqb_eq in Em. subst sg. inversion H. repeat split; auto.
-  - destruct (Ascii.eqb sg "+") eqn:Ep; [|discriminate].
-    apply Ascii.eqb_eq in Ep. subst sg. inversion H. repeat split; auto.
+  intros s H. pose proof (parse_time_zone_char s) as Hc.
+  destruct (tz_accepts s) as [off|]; [|exact Hc].
+  exfalso. apply (H off). apply parse_time_zone_spec. exact Hc.
 Qed.
-
-(** ... but "accepts exactly [+-]DDDD" is false: strconv.Atoi takes a sign, so "+-1-2"
-    (and "++1+2", "-+0-0", ...) are accepted as time zones. *)
-Theorem parse_time_zone_exactly_refuted :
-  exists s off, parse_time_zone s = LOk (off, s) /\ ~ (exists off', tz_denotes s off').
-Proof.
-  exists "+-1-2"%string, (-3720). split; [reflexivity|].
-  intros (off' & sg & h1 & h2 & m1 & m2 & Hs & _ & D1 & _). inversion Hs. subst. discriminate.
-Qed.
-Print Assumptions parse_time_zone_exactly_refuted.
-
+Example parse_time_zone_rejects_ex :
+  map parse_time_zone ["+-1-2"; "++1+2"; "+9999"; "+2500"; "+2400"; "+0060"; "0100"; "+01:00"]%string
+  = repeat (LErr "invalid timezone") 8.
+Proof. reflexivity. Qed.
 
 (* ------------------------------------------------------------------------------------------ *)
 (** * 6. $toMillis inverts $fromMillis on the default picture *)
@@ -791,11 +818,11 @@ Qed.
 (* --- facts about time.Parse and the calendar fields that do not involve FormatNumber --- *)
 
 (* the text of the zone for [Z01:01t]: "Z" for UTC, else sign, hours, ":", minutes — the sign
-   is that of the HOUR part (so offsets in (-1h, 0) get a "+": a defect, see below) *)
+   is that of the whole offset (hour and minute parts both carry it) *)
 Definition ztext (h m : Z) : string :=
   if (h =? 0) && (m =? 0) then "Z"%string
-  else if 0 <=? h then String "+" (dig2 h ++ String ":" (dig2 (Z.abs m)))
-  else String "-" (dig2 (- h) ++ String ":" (dig2 (Z.abs m))).
+  else if (h <? 0) || (m <? 0) then String "-" (dig2 (Z.abs h) ++ String ":" (dig2 (Z.abs m)))
+  else String "+" (dig2 (Z.abs h) ++ String ":" (dig2 (Z.abs m))).
 
 Lemma t_fields_range t :
   1 <= t_month t <= 12 /\ 1 <= t_day t <= 31 /\ 0 <= t_hour t <= 23 /\
@@ -938,11 +965,11 @@ Proof.
 Qed.
 
 Lemma count_digits_ztext h m : count_digits (ztext h m) = 0%nat.
-Proof. unfold ztext. destruct ((h =? 0) && (m =? 0)); [reflexivity|]. destruct (0 <=? h); reflexivity. Qed.
+Proof. unfold ztext. destruct ((h =? 0) && (m =? 0)); [reflexivity|]. destruct ((h <? 0) || (m <? 0)); reflexivity. Qed.
 
 (* the offset (seconds) that ztext h m denotes when read back *)
 Definition zoff_of (h m : Z) : Z :=
-  if 0 <=? h then (h * 60 + Z.abs m) * 60 else - ((- h * 60 + Z.abs m) * 60).
+  if (h <? 0) || (m <? 0) then - ((Z.abs h * 60 + Z.abs m) * 60) else (Z.abs h * 60 + Z.abs m) * 60.
 
 Ltac pl_step :=
   rewrite parse_loop_step;
@@ -983,17 +1010,17 @@ Proof.
     replace ((d <? 1) || (days_in_month y mo <? d)) with false by lia.
     eexists; split; [reflexivity|]. cbn [unix_sec nsec]. split; [|reflexivity].
     assert (h = 0 /\ m = 0) as [-> ->] by lia. cbn. lia.
-  - destruct (0 <=? h) eqn:Eh.
-    + rewrite (pe_zone_num "+" h (Z.abs m)) by (auto; lia). cbv iota beta. pl_step. cbn [lbind].
-      change (Ascii.eqb "+" "-") with false. cbv iota.
+  - destruct ((h <? 0) || (m <? 0)) eqn:Eh.
+    + rewrite (pe_zone_num "-" (Z.abs h) (Z.abs m)) by (auto; lia). cbv iota beta. pl_step. cbn [lbind].
+      change (Ascii.eqb "-" "-") with true. cbv iota.
       match goal with |- context [set_zoff ?z _] => remember z as zz eqn:Ezz end.
       unfold parse_finish. cbn.
       replace (mo <? 0) with false by lia. replace (d <? 0) with false by lia. cbv iota.
       replace ((d <? 1) || (days_in_month y mo <? d)) with false by lia.
       replace (zz =? -1) with false by lia. cbn [negb].
       eexists; split; [reflexivity|]. cbn [unix_sec nsec]. split; [lia|reflexivity].
-    + rewrite (pe_zone_num "-" (- h) (Z.abs m)) by (auto; lia). cbv iota beta. pl_step. cbn [lbind].
-      change (Ascii.eqb "-" "-") with true. cbv iota.
+    + rewrite (pe_zone_num "+" (Z.abs h) (Z.abs m)) by (auto; lia). cbv iota beta. pl_step. cbn [lbind].
+      change (Ascii.eqb "+" "-") with false. cbv iota.
       match goal with |- context [set_zoff ?z _] => remember z as zz eqn:Ezz end.
       unfold parse_finish. cbn.
       replace (mo <? 0) with false by lia. replace (d <? 0) with false by lia. cbv iota.
@@ -1042,15 +1069,24 @@ Proof.
 Qed.
 
 
+(* a valid time zone is a whole number of minutes below 24h, and a non-empty string *)
+Lemma tz_denotes_range s off : tz_denotes s off ->
+  (off mod 60 = 0 /\ -90000 < off < 90000) /\ s <> EmptyString.
+Proof.
+  intros (sg & h1 & h2 & m1 & m2 & -> & Hsg & D1 & D2 & D3 & D4 & Hh & Hm & ->).
+  unfold is_digit in *. unfold digit_val in *.
+  split; [|discriminate].
+  destruct (Ascii.eqb sg "-"); lia.
+Qed.
+
 Section InverseLaw.
 
-(* What the proof needs to know about FormatNumber(float64(n), layout) — three facts about the
+(* What the proof needs to know about FormatNumber(float64(n), layout) — two facts about the
    layouts "1" and "01" (validated against the real FormatNumber for every n in these ranges by
    the vector generator, and to be discharged by the FormatNumber model). *)
 Variable fi : Z -> string -> lres string.
 Hypothesis fi_year : forall n, 1000 <= n <= 9999 -> fi n "1" = LOk (dig4 n).
 Hypothesis fi_2 : forall n, 0 <= n <= 99 -> fi n "01" = LOk (dig2 n).
-Hypothesis fi_2neg : forall n, -99 <= n < 0 -> fi n "01" = LOk (String "-" (dig2 (- n))).
 
 (* --- symbolic execution of FormatTime on a closed picture --- *)
 
@@ -1091,7 +1127,8 @@ Lemma evm_decimal t body c fmt n :
 Proof.
   intros Hp Hne Hc s Hfi. unfold expand_variable_marker. rewrite Hp. cbn [lbind mk_format].
   rewrite Hne. rewrite Hc by reflexivity.
-  unfold format_integer_component. cbn [mk_format mk_modifier]. rewrite Hfi. reflexivity.
+  unfold format_integer_component. cbn [mk_format mk_modifier mk_minw]. rewrite Hfi. cbn [lbind].
+  rewrite pad_left_zeros_0. reflexivity.
 Qed.
 
 Lemma evm_default t body c n :
@@ -1104,7 +1141,8 @@ Proof.
   intros Hp Hc s Hfi. unfold expand_variable_marker. rewrite Hp. cbn [lbind mk_format zero_marker].
   change (seqb "" "") with true. cbv iota.
   rewrite Hc by reflexivity.
-  unfold format_integer_component, with_default_format. cbn [mk_format mk_modifier]. rewrite Hfi. reflexivity.
+  unfold format_integer_component, with_default_format. cbn [mk_format mk_modifier mk_minw zero_marker].
+  rewrite Hfi. cbn [lbind]. rewrite pad_left_zeros_0. reflexivity.
 Qed.
 
 Lemma edc_Y t mk : mk_format mk = "1"%string -> mk_modifier mk = ModNone -> mk_maxw mk = 0 ->
@@ -1152,13 +1190,10 @@ Proof.
   cbn [is_traditional andb]. unfold ztext.
   destruct ((h =? 0) && (m =? 0)) eqn:E0.
   - cbn [lbind andb]. reflexivity.
-  - unfold format_timezone_split.
-    rewrite (fi_2 (Z.abs m)) by lia.
-    destruct (0 <=? h) eqn:Eh.
-    + rewrite (fi_2 h) by lia. cbn [lbind lmap andb]. unfold pad_right.
-      change (0 <? 0) with false. cbv iota. reflexivity.
-    + rewrite (fi_2neg h) by lia. cbn [lbind lmap andb]. unfold pad_right.
-      change (0 <? 0) with false. cbv iota. reflexivity.
+  - unfold format_timezone_split, timezone_sign.
+    rewrite (fi_2 (Z.abs m)), (fi_2 (Z.abs h)) by lia. cbn [lbind lmap andb]. unfold pad_right.
+    change (0 <? 0) with false. cbv iota.
+    destruct ((h <? 0) || (m <? 0)); reflexivity.
 Qed.
 
 Ltac ft_one :=
@@ -1184,8 +1219,9 @@ Proof.
   change (parse_variable_marker "Y") with (@LOk (Z * marker) (cY, zero_marker)).
   cbn [lbind mk_format zero_marker]. change (seqb "" "") with true. cbv iota.
   rewrite edc_Y by reflexivity.
-  unfold format_integer_component, with_default_format. cbn [mk_format mk_modifier].
-  change (default_date_format cY) with "1"%string. rewrite fi_year by exact Hy. reflexivity.
+  unfold format_integer_component, with_default_format. cbn [mk_format mk_modifier mk_minw zero_marker].
+  change (default_date_format cY) with "1"%string. rewrite fi_year by exact Hy. cbn [lbind].
+  rewrite pad_left_zeros_0. reflexivity.
 Qed.
 
 Lemma evm_two t body c n :
@@ -1197,7 +1233,8 @@ Lemma evm_two t body c n :
 Proof.
   intros Hp Hc Hn. unfold expand_variable_marker. rewrite Hp. cbn [lbind mk_format].
   change (seqb "01" "") with false. cbv iota. rewrite Hc by reflexivity.
-  unfold format_integer_component. cbn [mk_format mk_modifier]. rewrite fi_2 by exact Hn. reflexivity.
+  unfold format_integer_component. cbn [mk_format mk_modifier mk_minw zero_marker].
+  rewrite fi_2 by exact Hn. cbn [lbind]. rewrite pad_left_zeros_0. reflexivity.
 Qed.
 
 Lemma evm_two_default t body c n :
@@ -1210,7 +1247,8 @@ Proof.
   intros Hp Hd Hc Hn. unfold expand_variable_marker. rewrite Hp. cbn [lbind mk_format zero_marker].
   change (seqb "" "") with true. cbv iota. unfold with_default_format. rewrite Hd.
   rewrite Hc by reflexivity.
-  unfold format_integer_component. cbn [mk_format mk_modifier]. rewrite fi_2 by exact Hn. reflexivity.
+  unfold format_integer_component. cbn [mk_format mk_modifier mk_minw zero_marker].
+  rewrite fi_2 by exact Hn. cbn [lbind]. rewrite pad_left_zeros_0. reflexivity.
 Qed.
 
 Lemma evm_f001 t : expand_variable_marker fi t "f001" = LOk (format_nano (t_nanosecond t) 3).
@@ -1337,58 +1375,46 @@ Proof.
   replace ((ms / 1000 + off - zoff_of h m) * 1000 + ms mod 1000 * 1000000 / 1000000)
     with ms' by (subst ms'; lia).
   apply wrap64_id.
-  assert (-90000 <= zoff_of h m <= 90000) by (unfold zoff_of; destruct (0 <=? h); lia).
+  assert (-90000 <= zoff_of h m <= 90000) by (unfold zoff_of; destruct ((h <? 0) || (m <? 0)); lia).
   subst ms'. fold h m. unfold two63. lia.
 Qed.
 
-(** PARTIAL inverse law ($toMillis after $fromMillis, default picture).  Proved for: EVERY
-    instant whose local year is 1000..9999 (no int64-nanosecond restriction any more, since the
-    repair of timeToMS); no zone, or any zone string the code accepts whose offset is a whole
-    number of minutes, below 25h in magnitude, and NOT in (-1h, 0) (the sign defect, see
-    [offset_sign_defect] below).
-    What is missing for the full property: (a) it is conditional on the three stated facts about
-    FormatNumber (validated against the real FormatNumber by the vector generator); (b) offsets
-    in (-1h,0) are genuinely false in the code; (c) of the other pictures only
-    [explicit_picture] is covered (section 6b). *)
+(** PARTIAL inverse law ($toMillis after $fromMillis, default picture).  Proved for EVERY
+    instant whose local year is 1000..9999 and EVERY valid time zone (+HHMM / -HHMM with
+    HH <= 23, MM <= 59, which is all parseTimeZone accepts; in particular -1400..+1400), or none.
+    What is missing for the full property: (a) it is conditional on the two stated facts about
+    FormatNumber (validated against the real FormatNumber by the vector generator); (b) of the
+    other pictures only [explicit_picture] is covered (section 6b).
+    HISTORICAL: before the repair of formatTimezoneShort/Long/Split the sign of the zone was
+    taken from the hour part alone, so for offsets in (-1h, 0) the text carried a "+" and this
+    law failed by 2*|offset| ($fromMillis(0,(),"-0030") = "1969-12-31T23:30:00.000+00:30",
+    read back as -3600000); the theorem then excluded those offsets (and a theorem
+    offset_sign_defect proved the deviation). *)
 Theorem to_millis_from_millis_default_partial : forall ms tz off,
-  (tz = None /\ off = 0) \/
-  (exists s, tz = Some s /\ s <> EmptyString /\ parse_time_zone s = LOk (off, s)) ->
-  off mod 60 = 0 -> -90000 < off < 90000 -> ~ (-3600 < off < 0) ->
+  (tz = None /\ off = 0) \/ (exists s, tz = Some s /\ tz_denotes s off) ->
   1000 <= local_year ms off <= 9999 ->
   exists text, from_millis fi ms None tz = LOk text /\ to_millis fi text None None = LOk ms.
 Proof.
-  intros ms tz off Htz Hmin Hrange Hsign Hyear.
+  intros ms tz off Htz Hyear.
+  assert (off mod 60 = 0 /\ -90000 < off < 90000) as [Hmin Hrange].
+  { destruct Htz as [[_ ->] | (s & _ & Hd)]; [split; [reflexivity|lia]|].
+    apply (proj1 (tz_denotes_range s off Hd)). }
+  assert ((tz = None /\ off = 0) \/
+          (exists s, tz = Some s /\ s <> EmptyString /\ parse_time_zone s = LOk (off, s))) as Htz'.
+  { destruct Htz as [H | (s & -> & Hd)]; [left; exact H|].
+    right. exists s. split; [reflexivity|]. split; [apply (proj2 (tz_denotes_range s off Hd))|].
+    apply parse_time_zone_spec. exact Hd. }
   assert (zoff_of (Z.quot off 3600) (Z.quot (Z.rem off 3600) 60) = off) as Hz
-    by (unfold zoff_of; destruct (0 <=? Z.quot off 3600) eqn:E; lia).
-  pose proof (to_millis_from_millis_default_gen ms tz off Htz Hrange Hyear) as H.
+    by (unfold zoff_of; destruct ((Z.quot off 3600 <? 0) || (Z.quot (Z.rem off 3600) 60 <? 0)) eqn:E; lia).
+  pose proof (to_millis_from_millis_default_gen ms tz off Htz' Hrange Hyear) as H.
   cbv zeta in H. rewrite Hz in H. replace (ms + 1000 * (off - off)) with ms in H by lia.
   exact H.
-Qed.
-
-(** The sign defect: for a zone offset strictly between -1h and 0 (e.g. "-0030") the rendered
-    text carries a "+" (the sign is taken from the hour part, which is 0), so reading it back
-    yields the instant 2*|offset| earlier.  The property demands ms. *)
-Theorem offset_sign_defect : forall ms s off,
-  s <> EmptyString -> parse_time_zone s = LOk (off, s) ->
-  off mod 60 = 0 -> -3600 < off < 0 ->
-  1000 <= local_year ms off <= 9999 ->
-  exists text, from_millis fi ms None (Some s) = LOk text /\
-               to_millis fi text None None = LOk (ms + 2000 * off) /\ ms + 2000 * off <> ms.
-Proof.
-  intros ms s off Hne Hp Hmin Hoff Hyear.
-  assert (zoff_of (Z.quot off 3600) (Z.quot (Z.rem off 3600) 60) = - off) as Hz
-    by (unfold zoff_of; destruct (0 <=? Z.quot off 3600) eqn:E; lia).
-  pose proof (to_millis_from_millis_default_gen ms (Some s) off
-                (or_intror (ex_intro _ s (conj eq_refl (conj Hne Hp)))) ltac:(lia) Hyear) as H.
-  cbv zeta in H. rewrite Hz in H. replace (ms + 1000 * (off - - off)) with (ms + 2000 * off) in H by lia.
-  destruct H as (text & H1 & H2). exists text. repeat split; auto. lia.
 Qed.
 End InverseLaw.
 
 Print Assumptions to_millis_from_millis_default_partial.
-Print Assumptions offset_sign_defect.
 
-(* the three FormatNumber facts are satisfiable, and the theorems apply to concrete instances *)
+(* the FormatNumber facts are satisfiable, and the theorems apply to concrete instances *)
 Definition fi_example (n : Z) (layout : string) : lres string :=
   if seqb layout "1" || seqb layout "0001" then LOk (dig4 n)
   else if 0 <=? n then LOk (dig2 n) else LOk (String "-" (dig2 (- n))).
@@ -1401,20 +1427,15 @@ Proof.
   - intros n H. reflexivity.
   - intros n H. unfold fi_example. change (seqb "01" "1" || seqb "01" "0001") with false. cbv iota.
     destruct (0 <=? n) eqn:E; [reflexivity|lia].
-  - intros n H. unfold fi_example. change (seqb "01" "1" || seqb "01" "0001") with false. cbv iota.
-    destruct (0 <=? n) eqn:E; [lia|reflexivity].
-  - right. exists "+0530"%string. split; [reflexivity|]. split; [discriminate|reflexivity].
-  - reflexivity.
-  - lia.
-  - lia.
+  - right. exists "+0530"%string. split; [reflexivity|]. apply parse_time_zone_spec. reflexivity.
   - vm_compute. split; discriminate.
 Qed.
 
-Example offset_sign_defect_ex :
-  from_millis fi_example 0 None (Some "-0030"%string) = LOk "1969-12-31T23:30:00.000+00:30"%string /\
-  to_millis fi_example "1969-12-31T23:30:00.000+00:30" None None = LOk (-3600000).
+(* the offsets of the former sign defect now round-trip *)
+Example offset_sign_repaired_ex :
+  from_millis fi_example 0 None (Some "-0030"%string) = LOk "1969-12-31T23:30:00.000-00:30"%string /\
+  to_millis fi_example "1969-12-31T23:30:00.000-00:30" None None = LOk 0.
 Proof. vm_compute. split; reflexivity. Qed.
-
 
 (* ------------------------------------------------------------------------------------------ *)
 (** * Invalid time zones are errors; ToMillis ignores its tz argument *)
@@ -1497,9 +1518,9 @@ Definition component_value (t : gotime) (c : Z) : Z :=
 
 (** With a decimal presentation modifier, [M] [D] [d] [F] [W] [H] [h] [m] [s] print (through
     FormatNumber, plus the ordinal suffix for the 'o' modifier) the month, day, day of year,
-    weekday number (Sunday = 1), ISO week, hour, 12-hour clock value, minute, second.  The
-    width modifiers are NOT consulted for these components (formatIntegerComponent ignores
-    minWidth / maxWidth). *)
+    weekday number (Sunday = 1), ISO week, hour, 12-hour clock value, minute, second; since the
+    repair of formatIntegerComponent the digits are zero-padded up to the minimum width
+    ([pad_left_zeros]); the maximum width is not consulted for these components. *)
 Theorem component_decimal fi t c mk :
   In c [cM; cD; cd; cF; cW; cH; ch; cm; cs] -> is_decimal_format (mk_format mk) = true ->
   expand_date_component fi t c mk = format_integer_component fi (component_value t c) mk.
@@ -1526,27 +1547,28 @@ Theorem component_year fi t mk : is_decimal_format (mk_format mk) = true ->
                     else mk_maxw mk)
               else mk_maxw mk in
   expand_date_component fi t cY mk =
-  if 0 <? size then
-    if pow10 size =? 0 then LPanic "integer divide by zero"
-    else format_integer_component fi (Z.rem (t_year t) (pow10 size)) mk
+  if 0 <? size then format_integer_component fi (last_digits (t_year t) size) mk
   else format_integer_component fi (t_year t) mk.
 Proof.
   intros Hd. unfold expand_date_component. change (cY =? cY) with true. cbv iota.
   unfold format_year. rewrite Hd. reflexivity.
 Qed.
 
-(** The panic: a maximum width of 64 or more makes pow10 wrap to 0 and [Y] divides by it. *)
-Theorem year_width_panics fi t mk : is_decimal_format (mk_format mk) = true -> 64 <= mk_maxw mk ->
-  expand_date_component fi t cY mk = LPanic "integer divide by zero".
+(** A maximum width of 19 or more leaves the year alone.  (HISTORICAL: before the repair the
+    modulus was an int64-wrapped 10^N: garbage for N = 19..63, and 0 from N = 64 on, where
+    $fromMillis(0, "[Y,*-64]") panicked with "integer divide by zero".) *)
+Theorem year_wide_width fi t mk : is_decimal_format (mk_format mk) = true -> 19 <= mk_maxw mk ->
+  expand_date_component fi t cY mk = format_integer_component fi (t_year t) mk.
 Proof.
   intros Hd Hw. rewrite component_year by exact Hd. cbv zeta.
   destruct (mk_maxw mk <=? 0) eqn:E; [lia|].
   destruct (0 <? mk_maxw mk) eqn:E2; [|lia].
-  unfold pow10. rewrite E. destruct (64 <=? mk_maxw mk) eqn:E3; [reflexivity|lia].
+  unfold last_digits. rewrite E. destruct (19 <=? mk_maxw mk) eqn:E3; [reflexivity|lia].
 Qed.
-Example year_width_panics_ex fi :
-  from_millis fi 0 (Some "[Y,*-64]"%string) None = LPanic "integer divide by zero".
-Proof. vm_compute. reflexivity. Qed.
+Example year_wide_width_ex :
+  from_millis fi_example 0 (Some "[Y,*-64]"%string) None = LOk "1970"%string /\
+  from_millis fi_example 0 (Some "[Y01]|[D01,3]|[m01,2-4]"%string) None = LOk "70|001|00"%string.
+Proof. vm_compute. split; reflexivity. Qed.
 
 (* English names (language.go): the first name of every month / day is the full English name *)
 Example english_names :
@@ -1565,8 +1587,8 @@ Definition explicit_picture : string := "[Y0001]-[M01]-[D01]T[H01]:[m01]:[s01].[
 
 (* zone text of [Z01:01] (no 't' modifier): always numeric *)
 Definition ztext_num (h m : Z) : string :=
-  if 0 <=? h then String "+" (dig2 h ++ String ":" (dig2 (Z.abs m)))
-  else String "-" (dig2 (- h) ++ String ":" (dig2 (Z.abs m))).
+  if (h <? 0) || (m <? 0) then String "-" (dig2 (Z.abs h) ++ String ":" (dig2 (Z.abs m)))
+  else String "+" (dig2 (Z.abs h) ++ String ":" (dig2 (Z.abs m))).
 
 (* seconds followed by ".ddd" when the layout continues with ".000": left to the next element *)
 Lemma pe_zerosecond_layoutfrac n k rest p : 0 <= n <= 59 -> 0 <= k <= 999 ->
@@ -1627,17 +1649,17 @@ Proof.
   pl_step. rewrite pe_frac0_3 by lia. cbv iota beta.
   pl_step.
   unfold ztext_num, zoff_of.
-  destruct (0 <=? h) eqn:Eh.
-  + rewrite (pe_zone_num "+" h (Z.abs m)) by (auto; lia). cbv iota beta. pl_step. cbn [lbind].
-    change (Ascii.eqb "+" "-") with false. cbv iota.
+  destruct ((h <? 0) || (m <? 0)) eqn:Eh.
+  + rewrite (pe_zone_num "-" (Z.abs h) (Z.abs m)) by (auto; lia). cbv iota beta. pl_step. cbn [lbind].
+    change (Ascii.eqb "-" "-") with true. cbv iota.
     match goal with |- context [set_zoff ?z _] => remember z as zz eqn:Ezz end.
     unfold parse_finish. cbn.
     replace (mo <? 0) with false by lia. replace (d <? 0) with false by lia. cbv iota.
     replace ((d <? 1) || (days_in_month y mo <? d)) with false by lia.
     replace (zz =? -1) with false by lia. cbn [negb].
     eexists; split; [reflexivity|]. cbn [unix_sec nsec]. split; [lia|reflexivity].
-  + rewrite (pe_zone_num "-" (- h) (Z.abs m)) by (auto; lia). cbv iota beta. pl_step. cbn [lbind].
-    change (Ascii.eqb "-" "-") with true. cbv iota.
+  + rewrite (pe_zone_num "+" (Z.abs h) (Z.abs m)) by (auto; lia). cbv iota beta. pl_step. cbn [lbind].
+    change (Ascii.eqb "+" "-") with false. cbv iota.
     match goal with |- context [set_zoff ?z _] => remember z as zz eqn:Ezz end.
     unfold parse_finish. cbn.
     replace (mo <? 0) with false by lia. replace (d <? 0) with false by lia. cbv iota.
@@ -1651,7 +1673,6 @@ Section InverseLawExplicit.
 Variable fi : Z -> string -> lres string.
 Hypothesis fi_4 : forall n, 0 <= n <= 9999 -> fi n "0001" = LOk (dig4 n).
 Hypothesis fi_2 : forall n, 0 <= n <= 99 -> fi n "01" = LOk (dig2 n).
-Hypothesis fi_2neg : forall n, -99 <= n < 0 -> fi n "01" = LOk (String "-" (dig2 (- n))).
 
 Lemma evm_Y0001 t : 0 <= t_year t <= 9999 ->
   expand_variable_marker fi t "Y0001" = LOk (dig4 (t_year t)).
@@ -1664,9 +1685,10 @@ Proof.
   change (count_digits_hash "0001") with 4.
   change (0 <=? 0) with true. change (2 <=? 4) with true. cbv iota.
   change (0 <? 4) with true. cbv iota.
-  change (pow10 4) with 10000. change (10000 =? 0) with false. cbv iota.
+  change (last_digits (t_year t) 4) with (Z.rem (t_year t) 10000).
   replace (Z.rem (t_year t) 10000) with (t_year t) by lia.
-  unfold format_integer_component. cbn [mk_format mk_modifier]. rewrite fi_4 by exact Hy. reflexivity.
+  unfold format_integer_component. cbn [mk_format mk_modifier mk_minw].
+  rewrite fi_4 by exact Hy. cbn [lbind]. rewrite pad_left_zeros_0. reflexivity.
 Qed.
 
 Lemma evm_Znum t name h m :
@@ -1682,13 +1704,10 @@ Proof.
     let v := eval vm_compute in (cZ =? b) in change (cZ =? b) with v end.
   cbv iota. unfold format_timezone. rewrite Hi. cbn [mk_format mk_modifier mk_minw].
   change (get_timezone_style "01:01") with (TzSplit "01" "01" ":").
-  cbn [is_traditional andb]. unfold ztext_num, format_timezone_split.
-  rewrite (fi_2 (Z.abs m)) by lia.
-  destruct (0 <=? h) eqn:Eh.
-  + rewrite (fi_2 h) by lia. cbn [lbind lmap andb]. unfold pad_right.
-    change (0 <? 0) with false. cbv iota. reflexivity.
-  + rewrite (fi_2neg h) by lia. cbn [lbind lmap andb]. unfold pad_right.
-    change (0 <? 0) with false. cbv iota. reflexivity.
+  cbn [is_traditional andb]. unfold ztext_num, format_timezone_split, timezone_sign.
+  rewrite (fi_2 (Z.abs m)), (fi_2 (Z.abs h)) by lia. cbn [lbind lmap andb]. unfold pad_right.
+  change (0 <? 0) with false. cbv iota.
+  destruct ((h <? 0) || (m <? 0)); reflexivity.
 Qed.
 
 Ltac ft_one' :=
@@ -1742,19 +1761,24 @@ Proof.
   vm_compute. split; discriminate.
 Qed.
 
-(** PARTIAL: the inverse law through the explicit picture, same zone restrictions as for the
-    default picture; every instant of the local years 0..9999 ([Y0001] pads the year).  Other
-    pictures "built from" these components (without [f001], date-only, [Z0101]) are validated
-    by vectors only. *)
+(** PARTIAL: the inverse law through the explicit picture: every instant of the local years
+    0..9999 ([Y0001] pads the year) and every valid time zone, or none.  Other pictures "built
+    from" these components (without [f001], date-only, [Z0101]) are validated by vectors only. *)
 Theorem to_millis_from_millis_explicit_partial : forall ms tz off,
-  (tz = None /\ off = 0) \/
-  (exists s, tz = Some s /\ s <> EmptyString /\ parse_time_zone s = LOk (off, s)) ->
-  off mod 60 = 0 -> -90000 < off < 90000 -> ~ (-3600 < off < 0) ->
+  (tz = None /\ off = 0) \/ (exists s, tz = Some s /\ tz_denotes s off) ->
   0 <= local_year ms off <= 9999 ->
   exists text, from_millis fi ms (Some explicit_picture) tz = LOk text /\
                to_millis fi text (Some explicit_picture) tz = LOk ms.
 Proof.
-  intros ms tz off Htz Hmin Hrange Hsign Hyear.
+  intros ms tz off Htz0 Hyear.
+  assert (off mod 60 = 0 /\ -90000 < off < 90000) as [Hmin Hrange].
+  { destruct Htz0 as [[_ ->] | (s & _ & Hd)]; [split; [reflexivity|lia]|].
+    apply (proj1 (tz_denotes_range s off Hd)). }
+  assert ((tz = None /\ off = 0) \/
+          (exists s, tz = Some s /\ s <> EmptyString /\ parse_time_zone s = LOk (off, s))) as Htz.
+  { destruct Htz0 as [H | (s & -> & Hd)]; [left; exact H|].
+    right. exists s. split; [reflexivity|]. split; [apply (proj2 (tz_denotes_range s off Hd))|].
+    apply parse_time_zone_spec. exact Hd. }
   pose proof (local_year_ms_bounds ms off Hyear Hrange) as Hms.
   destruct (ms_to_time_fields ms) as (Fs & Fn & Fo & Fz).
   assert (exists t, unix_sec t = ms / 1000 /\ nsec t = (ms mod 1000) * 1000000 /\ offset t = off /\
@@ -1790,7 +1814,9 @@ Proof.
     as (t' & Hparse & Hu & Hn); try lia.
   rewrite Hparse. f_equal.
   unfold time_to_ms. rewrite wrap64_add_l, Hu, Hn, Hdays.
-  assert (zoff_of h m = off) as Hz by (unfold zoff_of; subst h m; destruct (0 <=? Z.quot off 3600) eqn:E; lia).
+  assert (zoff_of h m = off) as Hz
+    by (unfold zoff_of; subst h m;
+        destruct ((Z.quot off 3600 <? 0) || (Z.quot (Z.rem off 3600) 60 <? 0)) eqn:E; lia).
   rewrite Hz.
   assert (t_days t * 86400 + t_hour t * 3600 + t_minute t * 60 + t_second t = ms / 1000 + off) as Hloc.
   { unfold t_days, t_hour, t_minute, t_second, t_sod, t_local_sec. rewrite Ts, To.
